@@ -431,7 +431,10 @@ def check_classical_store_ints(ctx, cirq):
         store.record_measurement(key, digits, qids)
         ctx.count('view', 'store.get_int')
         ctx.case(['store-int', dims, digits], len(dims) >= 2 and any(digits))
-        got = store.get_int(key)
+        try:
+            got = store.get_int(key)
+        except ValueError as e:
+            got = f'ValueError: {e}'[:120]
         got_digits = list(store.get_digits(key))
         if got != want or got_digits != digits:
             ctx.report_witness('store:get_int', 'ClassicalDataDictionaryStore.get_int is not the mixed-radix value of the recorded digits',
